@@ -18,7 +18,7 @@ import time
 
 VERIF = os.path.dirname(os.path.dirname(os.path.abspath(__file__)))
 LEAN = os.path.join(VERIF, "lean")
-REPO = os.environ.get("GAFTOOLS_REPO", "/repo")
+REPO = os.environ.get("GAFTOOLS_REPO") or "/repo"
 DRIVER = os.path.join(LEAN, ".lake", "build", "bin", "driver")
 ALLOWED_AXIOMS = {"propext", "Classical.choice", "Quot.sound"}
 FORBIDDEN = re.compile(r"\b(sorry|admit|native_decide|bv_decide|implemented_by|unsafe)\b|^\s*axiom\s|maxHeartbeats\s+0")
@@ -310,5 +310,12 @@ def run_check(fn, prop):
         sys.exit(2)
     except subprocess.TimeoutExpired as e:
         print("HARNESS-TIMEOUT %s: %s" % (prop, e), file=sys.stderr)
+        sys.exit(2)
+    except SystemExit:
+        raise
+    except BaseException as e:  # noqa: anything unexpected inside the harness itself is harness trouble, never a verdict
+        import traceback
+        traceback.print_exc()
+        print("HARNESS-ERROR %s: %s: %s" % (prop, type(e).__name__, e), file=sys.stderr)
         sys.exit(2)
     sys.exit(rc)
